@@ -176,7 +176,7 @@ pub fn child_e2e19(k: usize, kinds: &str, npeers: usize) -> ! {
 /// and keep the connection open without a word). Two connections are then made *to* the client: one from an unrelated
 /// port, one from the queued candidate's own address. On each: how many bytes arrive before anything was sent (there must
 /// be none), and what the client answers to a handshake (a foreign info-hash on the first, a valid one on the second).
-pub fn child_acc08() -> ! {
+pub fn child_acc08(interesting: bool) -> ! {
     use std::sync::atomic::{AtomicUsize, Ordering};
     use std::sync::Arc;
     let lock_path = std::env::var("VERIF_PORT_LOCK").unwrap_or_else(|_| "port6881.lock".into());
@@ -225,7 +225,9 @@ pub fn child_acc08() -> ! {
                     ida.copy_from_slice(&id);
                     let mut reply = handshake(&info_hash, &ida);
                     reply.extend_from_slice(&[0, 0, 0, 2, 5, 0x80]);
-                    if s.write_all(&reply).is_ok() {
+                    // (in the other variant the listed peers stay silent: eleven connections the client has no interest in -
+                    // it then takes no further incoming connection at all)
+                    if !interesting || s.write_all(&reply).is_ok() {
                         contacted.fetch_add(1, Ordering::SeqCst);
                     }
                 }
@@ -300,7 +302,7 @@ pub fn child_acc08() -> ! {
 }
 
 /// `accept`: spawn the child above and report its `E2E` line.
-fn op_accept() -> String {
+fn op_accept(variant: &str) -> String {
     let exe = std::env::current_exe().expect("exe");
     static COUNTER: std::sync::atomic::AtomicUsize = std::sync::atomic::AtomicUsize::new(0);
     let n = COUNTER.fetch_add(1, std::sync::atomic::Ordering::SeqCst);
@@ -308,7 +310,7 @@ fn op_accept() -> String {
     std::fs::create_dir_all(&dir).unwrap();
     let lock = std::env::var("VERIF_PORT_LOCK").unwrap_or_else(|_| "/verif/.scratch/port6881.lock".into());
     let out = std::process::Command::new(exe)
-        .args(["child-acc08"])
+        .args(["child-acc08", variant])
         .current_dir(&dir)
         .env("VERIF_PORT_LOCK", lock)
         .stdout(std::process::Stdio::null())
@@ -359,7 +361,7 @@ pub fn run19(args: &[&str]) -> String {
     match args[0] {
         "resp" => op_resp(&unhex(args[1])),
         "e2e" => op_e2e(args[1], args[2], args[3]),
-        "accept" => op_accept(),
+        "accept" => op_accept(args.get(1).copied().unwrap_or("i")),
         "fetch" => op_fetch(args[1].parse().unwrap(), &unhex(args[2])),
         "respawn" => op_respawn(args[1].parse().unwrap(), args[2].parse().unwrap()),
         _ => panic!("unknown C19 op"),
